@@ -37,7 +37,15 @@ BLOCK_ONLY = {
 
 
 def budget(tier: str) -> dict:
-    return {"examples": 40000 if tier == "quick" else 1000000}
+    return {"examples": 40000 if tier == "quick" else 1000000, "enum_tokens": 4 if tier == "quick" else 5}
+
+
+def evidence_extra(tier, tot):
+    n = budget(tier)["enum_tokens"]
+    return {
+        "enumeration": f"all concatenations of 1..{n} tokens over an {len(INLINE_ALPHABET)}-token inline alphabet ({sum(len(INLINE_ALPHABET) ** k for k in range(1, n + 1))} documents) x 2 configurations x parse/parseInline, complete",
+        "exhaustive_subspace": True,
+    }
 
 
 @st.composite
@@ -61,6 +69,28 @@ def _case(draw):
 
 def strategy(tier: str):
     return _case()
+
+
+# bounded-exhaustive part: every sequence of <= N inline "tokens" (small-scope hypothesis: delimiter and bracket
+# mismatches need only a handful of tokens)
+INLINE_ALPHABET = ["*", "**", "_", "~~", "[", "]", "](u)", "![", "`", "a", " ", "<b>", "&amp;", "\\*", "\n", "<http://x.y>", "(", "~~~"]
+ENUM_CFGS = [C.simple("js-default", html=True, typographer=True), C.simple("commonmark", enable=["strikethrough"])]
+
+
+def enumerate_cases(tier: str, shard: int, nshards: int):
+    import itertools
+
+    n = 4 if tier == "quick" else 5
+    idx = 0
+    for k in range(1, n + 1):
+        for combo in itertools.product(INLINE_ALPHABET, repeat=k):
+            idx += 1
+            if idx % nshards != shard:
+                continue
+            yield {"kind": "enum", "src": "".join(combo)}
+
+
+_EMD: dict = {}
 
 
 def check_stream(tokens, block: bool, res: Res, path: str, stats: dict) -> None:
@@ -146,6 +176,21 @@ def check(case) -> Res:
 
     res = Res()
     src = case["src"]
+    if case.get("kind") == "enum":
+        if not _EMD:
+            for i, c in enumerate(ENUM_CFGS):
+                _EMD[i] = C.build(c)
+        stats = {"maxdepth": 0, "image_children": 0, "emph": False}
+        for i, md in _EMD.items():
+            for toks, path in ((md.parse(src), "top"), (md.parseInline(src), "parseInline-top")):
+                check_stream(toks, True, res, path, stats)
+                try:
+                    SyntaxTreeNode(toks)
+                except Exception as e:  # noqa: BLE001
+                    res.fail(f"tree-construction:{type(e).__name__}", repr(e))
+        res.nt = stats["maxdepth"] >= 2 or stats["image_children"] >= 2
+        res.cls.append("enum")
+        return res
     md = C.build(case["cfg"])
     stats = {"maxdepth": 0, "image_children": 0, "emph": False}
     for mode in ("parse", "parseInline"):
